@@ -240,6 +240,15 @@ def run(ctx):
                "string, e.g. ('1','11') and ('11','1')" % (pattern, sink, (" %r" % what) if what else ""), node=n)
 
     # ------------------------------------------------------------------ C09.a opacity of names
+    # column labels of the mapping that are built from a name ('index_internal_assets_' + self.name)
+    name_embedding_columns = set()
+    for fn in p.all_functions():
+        for n in au.walk_local(fn.node, include_self=False):
+            if isinstance(n, ast.BinOp) and isinstance(n.op, ast.Add) and au.const_str(n.left) is not None and isinstance(n.right, ast.Attribute) \
+                    and n.right.attr == "name":
+                par = p.parent(n)
+                if isinstance(par, ast.Dict) or (isinstance(par, ast.Subscript) and "mapping" in au.U(par.value)):
+                    name_embedding_columns.add(au.const_str(n.left) + "<name>")
     n_checked = 0
     for fn in p.all_functions():
         for st in au.walk_stmts(fn.body):
@@ -270,6 +279,20 @@ def run(ctx):
                     if any(isinstance(o, (ast.In, ast.NotIn)) for o in ops) and _is_name_expr(n.left) and \
                             any(isinstance(c, ast.Attribute) and c.attr == "name" for c in n.comparators):
                         bad = "substring test between two names"
+                    # 'literal' in <label>, where the label runs over the columns of a frame: mapping columns embed asset names
+                    # (index_internal_assets_<name>), so a substring match depends on how assets are called; a prefix is safe
+                    if bad is None and len(ops) == 1 and isinstance(ops[0], (ast.In, ast.NotIn)) and au.const_str(n.left) is not None \
+                            and isinstance(n.comparators[0], ast.Name) and name_embedding_columns:
+                        lab = n.comparators[0]
+                        comp = next((a for a in p.ancestors(n) if isinstance(a, (ast.ListComp, ast.GeneratorExp, ast.SetComp, ast.For))), None)
+                        it = None
+                        if isinstance(comp, ast.For) and lab.id in au.target_names(comp.target):
+                            it = comp.iter
+                        elif comp is not None and not isinstance(comp, ast.For):
+                            it = next((g.iter for g in comp.generators if lab.id in au.target_names(g.target)), None)
+                        if it is not None and isinstance(it, ast.Attribute) and it.attr == "columns" and "mapping" in au.U(it):
+                            bad = "substring test %r in a column label of the mapping (labels embed asset names: %s)" % (
+                                au.const_str(n.left), ", ".join(sorted(name_embedding_columns)[:2]))
                 elif isinstance(n, ast.Subscript) and isinstance(n.value, ast.Attribute) and n.value.attr == "name" and isinstance(n.ctx, ast.Load):
                     bad = "indexing / slicing a name"
                 if bad:
